@@ -489,10 +489,14 @@ func overrideRemapExprHandles(kind ExpressionKind, handleMap []ExpressionHandle)
 		}
 		return h
 	}
-	remapPtr := func(p *ExpressionHandle) {
-		if p != nil && int(*p) < len(handleMap) {
-			*p = handleMap[*p]
+	// remapPtr returns a fresh cell: the pointers in kind are shared with the
+	// module the caller cloned from and must not be written through.
+	remapPtr := func(p *ExpressionHandle) *ExpressionHandle {
+		if p == nil {
+			return nil
 		}
+		h := remap(*p)
+		return &h
 	}
 	switch k := kind.(type) {
 	case ExprAccess:
@@ -536,9 +540,9 @@ func overrideRemapExprHandles(kind ExpressionKind, handleMap []ExpressionHandle)
 		s.Image = remap(s.Image)
 		s.Sampler = remap(s.Sampler)
 		s.Coordinate = remap(s.Coordinate)
-		remapPtr(s.ArrayIndex)
-		remapPtr(s.DepthRef)
-		remapPtr(s.Offset)
+		s.ArrayIndex = remapPtr(s.ArrayIndex)
+		s.DepthRef = remapPtr(s.DepthRef)
+		s.Offset = remapPtr(s.Offset)
 		// Remap SampleLevel handles
 		switch lv := s.Level.(type) {
 		case SampleLevelExact:
@@ -557,9 +561,9 @@ func overrideRemapExprHandles(kind ExpressionKind, handleMap []ExpressionHandle)
 		l := k
 		l.Image = remap(l.Image)
 		l.Coordinate = remap(l.Coordinate)
-		remapPtr(l.ArrayIndex)
-		remapPtr(l.Sample)
-		remapPtr(l.Level)
+		l.ArrayIndex = remapPtr(l.ArrayIndex)
+		l.Sample = remapPtr(l.Sample)
+		l.Level = remapPtr(l.Level)
 		return l
 	case ExprImageQuery:
 		q := k
@@ -567,7 +571,7 @@ func overrideRemapExprHandles(kind ExpressionKind, handleMap []ExpressionHandle)
 		// ImageQuery.Query may contain handles
 		switch qv := q.Query.(type) {
 		case ImageQuerySize:
-			remapPtr(qv.Level)
+			qv.Level = remapPtr(qv.Level)
 			q.Query = qv
 		}
 		return q
